@@ -7,7 +7,7 @@ fns and entraited traits are not un-mockable; (R) shape of `unmock_with` on the 
 import copy
 from .. import core, tok, selftest
 from ..core import Case
-from ..gen.fns import FnSpec, Param, TYPES, SUPPORT, PLAIN_NAMES
+from ..gen.fns import FnSpec, Param, Ty, TYPES, SUPPORT, PLAIN_NAMES
 from ..gen.fncases import random_fn, APP_DEF
 
 PROP = "C11"
@@ -19,7 +19,16 @@ PROFILE = dict(deps_kinds=["generic_ref"] * 3 + ["impl_ref"] * 3 + ["no_deps"], 
 
 
 def pattern_of(expr):
-    return expr
+    # a `&mut` argument cannot be compared by value in `matching!`: it is matched by a wildcard
+    return "_" if expr.startswith("&mut ") else expr
+
+
+def _mutlit(k, u):
+    return None, "&mut %di32" % (1000 + k), str(1000 + k), None
+
+
+# `&mut` parameters (a temporary as argument: no set-up statement needed); no_deps fns name every parameter in `unmock_with`
+MUT_TY = Ty("mutref", "&mut i32", _mutlit)
 
 
 def build_fnmod(cid, rng):
@@ -54,6 +63,9 @@ def build_fnmod(cid, rng):
                 tmpl = copy.deepcopy(f)
             fns.append(f)
     for f in fns:
+        for p_ in f.params:
+            if p_.ty.key == "i32" and p_.form in ("plain", "wild") and not p_.generic and rng.random() < 0.25:
+                p_.ty = MUT_TY
         if rng.random() < 0.3 and not f.lifetimes:
             # an explicit lifetime parameter (it stays on the trait method: type and const parameters would be lifted)
             f.lifetimes.append(("'q", []))
